@@ -85,8 +85,8 @@ fn default_runs(prop: &str, tier: &str, profile: &str) -> u64 {
             }
         }
         ("quick", true) => 25_000,
-        (_, false) => 30_000_000,
-        (_, true) => 2_000_000,
+        (_, false) => 12_000_000,
+        (_, true) => 600_000,
     }
 }
 
